@@ -594,10 +594,52 @@ def g_rect(rng, W, H, bx, by):
     return (x, y, rng.randint(1, W - x), rng.randint(1, H - y))
 
 
+def encoder_images(ctx):
+    """layered images from the Lean reference encoder with restoration filters switched on: the
+    padding of every layer of a blend chain matters only here (the fixture's layers have no filter)"""
+    import feedlib as fl
+    import planlib as pl
+    rng = ctx.rng
+    d = os.path.join(WORK, "c06gen")
+    os.makedirs(d, exist_ok=True)
+    for f in os.listdir(d):
+        os.unlink(os.path.join(d, f))
+    plans = []
+    for i in range(10 if ctx.quick else 120):
+        recipe = i % 3 == 0      # alpha-blended layers, Gabor, squeeze: channel grids with different regions
+        for _try in range(40):
+            img, frames = fl.gen_multiframe(rng, big=(i % 5 == 4))
+            if not recipe or (img["ecs"] and img["w"] >= 4 and img["h"] >= 4):
+                break
+        img["orient"] = rng.choice([1, 1, 1, 3, 6, 7])
+        img["anim"] = None
+        nec = len(img["ecs"])
+        for f in frames:
+            f["dur"] = 0
+            f["gab"] = recipe or rng.random() < 0.6
+            f["epf"] = rng.choice([0, 0, 1, 2, 3])
+            # squeeze forces the Modular image to be decoded in full while the colour channels are
+            # cropped to the filter padding: channel grids of one frame then cover different regions
+            if (recipe or rng.random() < 0.5) and f["chans"][0][0] >= 2 and f["chans"][0][1] >= 2:
+                f["tr"] = [("sq", [])]
+            if nec and f.get("ty", 0) in (0, 3) and (recipe or rng.random() < 0.7):
+                f["blend"] = dict(f.get("blend", {}), mode=rng.choice([2, 3]), alpha=0)
+        plans.append(("layers+filters", pl.plan_line(img, frames)))
+    out = []
+    for k, (kind, line, cs) in enumerate(fl.encode(plans)):
+        path = os.path.join(d, f"{k}.jxl")
+        open(path, "wb").write(cs)
+        out.append((path, 12 if ctx.quick else 40, line))
+    ctx.count("encoder-images", len(out))
+    return out
+
+
 def crop_vs_full(ctx):
     rng = ctx.rng
-    plans = [(FIXTURE, 150 if ctx.quick else 2600), (STUB, 40 if ctx.quick else 500)]
-    for path, n in plans:
+    plans = [(FIXTURE, 150 if ctx.quick else 2600, None), (STUB, 40 if ctx.quick else 500, None)]
+    if ctx.lean_ok:
+        plans += encoder_images(ctx)
+    for path, n, plan_text in plans:
         if not os.path.exists(path):
             ctx.failed_obligations.append(f"image missing: {path}")
             continue
@@ -656,9 +698,10 @@ def crop_vs_full(ctx):
                     replay, o = cand, o2[-1]
                     break
             ctx.violation("crop-differs-from-full-render", o,
-                          {"image": path, "requests": replay, "result": o,
+                          {"image": path, "requests": replay, "result": o, "plan": plan_text,
+                           "image_hex": open(path, "rb").read().hex() if plan_text else None,
                            "how": f"printf 'open {path}\\nfresh\\n<requests>\\n' | harness/target/debug/c06 {FIXTURE}"},
-                          key=f"c06:crop:{os.path.basename(path)}:{o.split()[0]}")
+                          key=f"c06:crop:{os.path.basename(path) if not plan_text else 'encoder-image'}:{o.split()[0]}")
         ctx.sample({"image": os.path.basename(path), "requests": lines[1:6], "results": out[1:6]})
 
 
@@ -673,6 +716,7 @@ def run(ctx):
             print(f"  {l}\n    -> {o}")
         return
     ok = ctx.lean_build(MODULES + EXTRA_BUILD)
+    ctx.lean_ok = ok
     if ok:
         ctx.audit(MODULES, ctx.update_lock)
         if not ctx.quick:
